@@ -52,7 +52,7 @@ def parse_int(it, s, base=10):
     """int(str) for structured strings: FmtInt -> its term; otherwise literal parse."""
     parts = s.parts
     if len(parts) == 1 and isinstance(parts[0], FmtInt):
-        _assume(it, "int(str(n)) == n (decimal rendering is inverse to parsing)")
+        _assume(it, "int(str(n)) == n (decimal rendering, zero-padded or not, is inverse to parsing)")
         return parts[0].term
     if len(parts) == 1 and isinstance(parts[0], Atom) and "intlit" in parts[0].tags:
         _assume(it, "int() parses every string of the xsd:integer lexical space")
@@ -240,6 +240,11 @@ def m_len(it, args, kw):
     if isinstance(v, SStr):
         if v.is_literal():
             return len(v.literal())
+        if all(isinstance(p, str) or (isinstance(p, Atom) and getattr(p, "length", None) is not None) for p in v.parts):
+            tot = 0
+            for p in v.parts:
+                tot = tot + (len(p) if isinstance(p, str) else p.length)
+            return tot
         zs = v.z3()
         if zs is not None:
             return z3.Length(zs)
